@@ -37,6 +37,7 @@ from hpstatic.loader import AnalysisError
 from hpstatic.poly import Canon
 from hpstatic.terms import (sym, intern, show, subterms, calls_in, NONE, num, kw)
 from . import c05
+from .common import call_args, term_args, canon_call, method_term_args
 
 MUTATION_TARGETS = {'holopy/scattering/theory/lens.py': ['_integrand_prefactor', '_integrand_prll', '_integrand_perp', '_calc_scattering_matrix', '_compute_field_phase', 'raw_fields'], 'holopy/scattering/theory/mielens.py': ['raw_fields', '_create_calculator'], 'holopy/scattering/theory/mielensfunctions.py': ['calculate_scattered_field', '_calculate_phase', '_calculate_aberrated_phase', '_calculate_incident_field']}
 
@@ -334,7 +335,7 @@ def mielens_inputs(check, prog):
         check.bad('V9-mielens-inputs', 'MieLens.raw_fields',
                   'no single call of _create_calculator', loc)
         return
-    kws = dict(cs[0]['kwargs'])
+    kws = call_args(prog, cs[0])
     sc, k, nm = sym('scatterer'), sym('medium_wavevec'), sym('medium_index')
     canon = Canon()
     want = {'index_ratio': intern(('bin', '/', ('attr', sc, 'n'), nm)),
@@ -439,7 +440,7 @@ def quadrature(check, prog, canon):
         MLF + 'MieLensCalculator._precompute_scattering_matrices'])
     res = it.analyze(q)
     gl = [c for c in it.calls if c['name'] == MLF + 'gauss_legendre_pts_wts']
-    ok = len(gl) == 1 and dict(gl[0]['kwargs']).get('npts') == sym('quad_npts')
+    ok = len(gl) == 1 and call_args(prog, gl[0]).get('npts') == sym('quad_npts')
     check.require(ok, 'V3-cutoff-scales-with-quadrature', 'MieLensCalculator nodes',
                   'Gauss-Legendre nodes use quad_npts', prog.loc(q, prog.func(q)))
     # Lens: reshape order matches meshgrid order
@@ -792,8 +793,10 @@ def interpolation_windows(check, prog):
                        q + '.<f>')
             xx = sym('X')
             val = it.inline_closure(node_c, cenv, cframe, [xx], {}, fr, ())
-            okf = val == ('call', ('attr', me, '_direct_eval_mielens_i_n'), (xx,),
-                          (('n', n_),))
+            okf = val[0] == 'call' and \
+                val[1] == ('attr', me, '_direct_eval_mielens_i_n') and \
+                method_term_args(prog, MLF + 'MieLensCalculator', val) == {
+                    'krho': xx, 'n': n_}
         ok = ok and okd and okf
     check.require(ok, 'V7-interpolation-windows', 'MieLensCalculator interpolation',
                   'windows of width interpolator_window_size from floor(min krho / w) '
